@@ -15,10 +15,13 @@ head = subprocess.check_output(['git', '-C', '/repo', 'rev-parse', '--short', 'H
 base_cache = {}
 
 
-def run(tag):
+OWN_ONLY = os.environ.get('SEED_OWN_ONLY') == '1'      # only the check of the property the seed breaks (fast re-check after a rule change)
+
+
+def run(tag, pids=()):
     out = '/tmp/seeds/evid/runall_%s.json' % tag
     env = dict(os.environ, VERIF_EVID_DIR='/tmp/seeds/evid', SVT_REPO=W, SVT_CACHE='/tmp/seeds/cache_rerun', VERIF_RUNALL_JSON=out)
-    subprocess.run([sys.executable, os.path.join(HERE, 'tools', 'runall.py')], capture_output=True, text=True, env=env)
+    subprocess.run([sys.executable, os.path.join(HERE, 'tools', 'runall.py')] + list(pids), capture_output=True, text=True, env=env)
     return json.load(open(out))
 
 
@@ -31,13 +34,15 @@ for p in seeds:
     base = m.get('base_commit') or head
     subprocess.run(['git', '-C', W, 'checkout', '-q', '--', '.'])
     subprocess.check_call(['git', '-C', W, 'checkout', '-q', '--detach', base])
-    if base not in base_cache:
-        base_cache[base] = run('base_' + base)
-    b = base_cache[base]
+    own = (m.get('breaks_property') or sid.split('-')[0],) if OWN_ONLY else ()
+    bkey = (base,) + own
+    if bkey not in base_cache:
+        base_cache[bkey] = run('base_' + '_'.join(bkey), own)
+    b = base_cache[bkey]
     if subprocess.run(['git', '-C', W, 'apply', p]).returncode:
         print(sid, 'patch does not apply to', base); continue
     try:
-        r = run(sid)
+        r = run(sid, own)
     finally:
         subprocess.run(['git', '-C', W, 'checkout', '-q', '--', '.'])
     new = {}
@@ -48,11 +53,15 @@ for p in seeds:
             new[pid] = nv
         elif v['rc'] == 2 and b.get(pid, {}).get('rc') != 2:
             new[pid] = ['ANALYSIS-BROKEN (exit 2)']
+    if OWN_ONLY:
+        prev_other = [c for c in m.get('checks_reporting_new_violation_now', []) if c not in own]
     m['checks_reporting_new_violation_now'] = sorted(k for k, v in new.items() if v != ['ANALYSIS-BROKEN (exit 2)'])
     m['checks_analysis_broken_now'] = sorted(k for k, v in new.items() if v == ['ANALYSIS-BROKEN (exit 2)'])
     m['new_violation_lines_now'] = [l for v in new.values() for l in v][:8]
     m['rerun_at_verif_commit'] = subprocess.check_output(['git', '-C', HERE, 'rev-parse', '--short', 'HEAD'], text=True).strip()
     m['base_commit'] = base
+    if OWN_ONLY:
+        m['checks_reporting_new_violation_now'] = sorted(set(m['checks_reporting_new_violation_now']) | set(prev_other))
     for k in ('checks_reporting_violation_now', 'violation_lines_now'):
         m.pop(k, None)
     json.dump(m, open(mf, 'w'), indent=1)
